@@ -783,7 +783,15 @@ func (fg *FG) typeAssert(st *State, x *ssa.TypeAssert) {
 	a := fg.val(x.X)
 	var ok string
 	var v string
-	if _, isI := types.Unalias(x.AssertedType).Underlying().(*types.Interface); isI {
+	if tp, isTP := types.Unalias(x.AssertedType).(*types.TypeParam); isTP {
+		// assertion to a type parameter (generic body verified for an opaque type): whether it holds
+		// and what it yields are uninterpreted functions of the interface value
+		srt := fg.sorts.sortOf(tp)
+		fg.declareFun("tpis."+srt, []string{"Iface"}, "Bool")
+		fg.declareFun("tpcast."+srt, []string{"Iface"}, srt)
+		ok = fmt.Sprintf("(tpis.%s %s)", srt, a.T)
+		v = fmt.Sprintf("(tpcast.%s %s)", srt, a.T)
+	} else if _, isI := types.Unalias(x.AssertedType).Underlying().(*types.Interface); isI {
 		id := fg.sorts.typeTag(x.AssertedType)
 		ok = fmt.Sprintf("(and (not (= %s %s)) (implements (i.tag %s) %s))", a.T, ifaceNil, a.T, id)
 		v = a.T
